@@ -1245,6 +1245,9 @@ pub fn c06_cfgs(thorough: bool) -> Vec<Cfg> {
         mk("producer->consumer via output", &["in_p.txt", "out_p.txt", "in_c.txt", "out_c.txt"], vec![rf("c", Kind::B, &[], &[2], &["p"], Some(3)), rf("p", Kind::B, &[], &[0], &[], Some(1))], &["c"], b),
         mk("build->service", &["in_b.txt", "out_b.txt", "in_s.txt"], vec![rf("s", Kind::S, &[], &[2], &["b"], None), rf("b", Kind::B, &[], &[0], &[], Some(1))], &["s"], b),
         mk("producer->aggregate->consumer", &["in_p.txt", "out_p.txt", "in_c.txt", "out_c.txt"], vec![rf("c", Kind::B, &["a"], &[2], &[], Some(3)), t("a", Kind::A, &["p"]), rf("p", Kind::B, &[], &[0], &[], Some(1))], &["c"], b),
+        // a consumer without any input can never be skipped: it must be re-run after each re-run of what it depends on
+        mk("producer->aggregate->consumer without input", &["in_p.txt", "out_p.txt", "out_c.txt"], vec![{ let mut c = rf("c", Kind::B, &["a"], &[], &[], Some(2)); c.has_input = false; c }, t("a", Kind::A, &["p"]), rf("p", Kind::B, &[], &[0], &[], Some(1))], &["c"], 1),
+        mk("producer->consumer without input", &["in_p.txt", "out_p.txt", "out_c.txt"], vec![{ let mut c = rf("c", Kind::B, &["p"], &[], &[], Some(2)); c.has_input = false; c }, rf("p", Kind::B, &[], &[0], &[], Some(1))], &["c"], 1),
     ];
     if thorough {
         v.push(mk("single-build, 3 changes", &["in_t.txt", "out_t.txt"], vec![rf("t", Kind::B, &[], &[0], &[], Some(1))], &["t"], 3));
@@ -1342,6 +1345,25 @@ pub fn c06_terminal(sys: &Sys, ctx: &mut Ctx) {
                 }
             }
             Kind::A => {}
+        }
+    }
+    for tname in cfg.closure() {
+        let t = cfg.spec(&tname);
+        if t.kind != Kind::B || !sys.effective_inputs(&tname).is_empty() {
+            continue;
+        }
+        let last_spawn = evs.iter().rposition(|e| matches!(e, Ev::Spawn { t: x, .. } if x == &tname));
+        for d in cfg.deps_star(&tname) {
+            if cfg.spec(&d).kind != Kind::B {
+                continue;
+            }
+            let last_ok = evs.iter().rposition(|e| matches!(e, Ev::Finish { t: x, code: 0, .. } if x == &d));
+            ctx.count("no-input dependents checked against their dependencies' last re-run");
+            if let Some(f) = last_ok {
+                if last_spawn.map(|s| s < f).unwrap_or(true) {
+                    ctx.violation(format!("dependent-not-re-run-after-its-dependency [{}]", cfg.name), format!("{} declares no input (it can never be skipped) and depends on {}, whose last successful run ended after {}'s last start: {} was not re-run after its dependency\nhistory of {}: {:?}", tname, d, tname, tname, tname, sys.hist(&tname)));
+                }
+            }
         }
     }
     if !stuck_fp.is_empty() && changes == 0 {
